@@ -405,9 +405,14 @@ theorem lookupd_producers (w : World) (a : Action) :
   · rintro ⟨l, ⟨h1, h2⟩, h3⟩; exact ⟨l, h1, h2, h3⟩
   · rintro ⟨l, h1, h2, h3⟩; exact ⟨l, ⟨h1, h2⟩, h3⟩
 
-/-- Direct mode: the configured nsqds that answer and list the topic, as often as configured. -/
+/-- Direct mode: one entry per configured nsqd that answers and lists the topic (as often as configured) —
+the address that nsqd's `/info` *reports*, not the configured one, and without de-duplication. -/
 theorem nsqd_producers (w : World) (a : Action) :
-    (nsqdTopicProducers w a).producers = w.nsqdAddrs.filter (nodeHasTopic w) := rfl
+    (nsqdTopicProducers w a).producers = (w.nsqdAddrs.filter (nodeHasTopic w)).map (reportOf w) := rfl
+
+/-- Tombstone: the one producer is the address the node's `/info` reports. -/
+theorem node_producers (w : World) (a : Action) :
+    (nsqdProducersOfNode w a).producers = if nodeUp w a.node then [reportOf w a.node] else [] := rfl
 
 /-- The GETs of a delete / pause / unpause / empty all precede its POSTs. -/
 def getsFirst (rs : List PReq) : Prop :=
